@@ -106,6 +106,8 @@ def generate(seed, tier, index):
             k = ["kinetics", entries, True, gen_us(rf)]
             if m.nc == 1 and rf.chance(0.7):
                 k = ["kinetics", "all", True, gen_us(rf), "dxdtf"]
+            elif m.ns * m.nc <= 9 and rf.chance(0.6):
+                k = ["kinetics", "all", True, gen_us(rf)]      # the whole-state function on a multi-cell system
             i_drive = [i for i, o in enumerate(obs) if o[0] == "drive"][0]
             obs.insert(i_drive + 1, k)
         ops += obs
@@ -176,9 +178,28 @@ def check(case, results):
                               "expected %r" % (d[0], d[1], X0[d[0], d[1]], m.x0[d[0], d[1]])})
                 else:
                     traj.euler_oracle(h, m, phys, v, stats, "C03")
-            else:
-                # flagged entries of a processed initial state: exercised by C14; here: unflagged evolution is C07's
-                pass
+            elif kind == "gillespie":
+                # every observed step must be the *masked* effect of an event that is possible in the state before it:
+                # a flagged entry is exempt from the change, its partner is not (source and sink for its neighbours)
+                from .c07 import EventTable
+                tab = EventTable(m)
+                prev = h.obs0
+                for ai, (kd, ret, o) in enumerate(h.actions):
+                    if kd == "iterate" and o.t != prev.t:
+                        d = o.x - prev.x
+                        eff = frozenset(((int(a), int(b)), int(d[a, b])) for a, b in np.argwhere(d != 0))
+                        g = tab.gid.get(eff)
+                        stats["gillespie_steps_checked"] = stats.get("gillespie_steps_checked", 0) + 1
+                        ok = False
+                        if g is not None:
+                            ag = np.bincount(tab.group_of_event, weights=tab.propensities(prev.x), minlength=tab.ngroups)
+                            ok = ag[g] > 0
+                        if not ok:
+                            v.append({"oracle": "C03.masked-step", "action": ai,
+                                      "detail": "Gillespie step %d changes the state by %s: not the chemostat-masked effect of any "
+                                                "event possible in the state before it" % (ai, sorted(eff))})
+                            break
+                    prev = o
             for ev in res.events:
                 if ev["e"] == ei and ev["op"] == "kinetics" and "exc" not in ev and not ev.get("skipped"):
                     check_kinetics(ev, ep["ops"][ev["i"]], m, phys, v, stats, "C03", masked=True)
